@@ -381,6 +381,109 @@ type CoverModel struct {
 	// pruneNotFound: do not follow the "key not found" edge of a keyspace lookup (there is no object to
 	// give a version to; callers pass the key of the object they modify)
 	pruneNotFound bool
+	// assumeLoopsRun: a loop every iteration of which performs E is assumed to run at least once (range
+	// loops over argument lists the grammar guarantees to be non-empty)
+	assumeLoopsRun bool
+	// pruneEdge: extra, site-specific infeasible edges
+	pruneEdge func(a, b *ssa.BasicBlock) bool
+}
+
+// loopExitEdge: a->b leaves a loop headed at a whose body performs E on every iteration.
+func (cm *CoverModel) loopExitEdge(a, b *ssa.BasicBlock) bool {
+	if !cm.assumeLoopsRun || len(a.Succs) != 2 {
+		return false
+	}
+	other := a.Succs[0]
+	if other == b {
+		other = a.Succs[1]
+	}
+	// other side must loop back to a, b must not
+	if !reachableFrom(other, nil)[a] || reachableFrom(b, nil)[a] {
+		return false
+	}
+	// every way from `other` back to a passes E
+	type pt struct{ b *ssa.BasicBlock }
+	seen := map[*ssa.BasicBlock]bool{}
+	stack := []*ssa.BasicBlock{other}
+	for len(stack) > 0 {
+		cur := stack[len(stack)-1]
+		stack = stack[:len(stack)-1]
+		if seen[cur] {
+			continue
+		}
+		seen[cur] = true
+		blocked := false
+		for _, in := range cur.Instrs {
+			if cm.eventAt(in) {
+				blocked = true
+				break
+			}
+		}
+		if blocked {
+			continue
+		}
+		for _, s := range cur.Succs {
+			if cm.pruneEdge != nil && cm.pruneEdge(cur, s) {
+				continue
+			}
+			if s == a {
+				return false // an iteration without E exists
+			}
+			stack = append(stack, s)
+		}
+	}
+	return true
+}
+
+// nilResultsAfter: result indexes of fn that are certainly nil on every return reachable from `in`
+// (the mutation and an error result exclude each other).
+func nilResultsAfter(in ssa.Instruction) map[int]bool {
+	fn := in.Parent()
+	out := map[int]bool{}
+	res := fn.Signature.Results()
+	for i := 0; i < res.Len(); i++ {
+		switch res.At(i).Type().Underlying().(type) {
+		case *types.Pointer, *types.Interface:
+		default:
+			continue
+		}
+		all := true
+		n := 0
+		for b := range reachableFrom(in.Block(), nil) {
+			ret, ok := b.Instrs[len(b.Instrs)-1].(*ssa.Return)
+			if !ok || i >= len(ret.Results) {
+				continue
+			}
+			n++
+			v := ret.Results[i]
+			if isNilConst(v) || knownNilIn(v, b) {
+				continue
+			}
+			all = false
+		}
+		if all && n > 0 {
+			out[i] = true
+		}
+	}
+	return out
+}
+
+// knownNilIn: v is known to be nil in block blk by a dominating test.
+func knownNilIn(v ssa.Value, blk *ssa.BasicBlock) bool {
+	for _, d := range blk.Parent().Blocks {
+		nn := nonNilSucc(d, v)
+		if nn == nil {
+			continue
+		}
+		nilSide := d.Succs[0]
+		if nilSide == nn {
+			nilSide = d.Succs[1]
+		}
+		if len(nilSide.Preds) == 1 && (nilSide == blk || nilSide.Dominates(blk)) {
+			return true
+		}
+	}
+	return false
 }
 
 // notFoundEdge: edge a->b is the false edge of `if exists` where exists is result #1 of a lookup
@@ -502,7 +605,7 @@ func (cm *CoverModel) exitReachableWithoutE(fn *ssa.Function, b *ssa.BasicBlock,
 			continue
 		}
 		for _, s := range cur.b.Succs {
-			if !seen[s] && !cm.notFoundEdge(cur.b, s) {
+			if !seen[s] && !cm.notFoundEdge(cur.b, s) && !cm.loopExitEdge(cur.b, s) && !(cm.pruneEdge != nil && cm.pruneEdge(cur.b, s)) {
 				seen[s] = true
 				stack = append(stack, pt{s, 0})
 			}
@@ -561,6 +664,38 @@ func (cm *CoverModel) coveredFrom(in ssa.Instruction, b *ssa.BasicBlock, idx int
 		return true
 	}
 	return !cm.exitReachableWithoutE(in.Parent(), b, idx)
+}
+
+// coveredWithNilResults: as covered, for a call site whose callee performed the mutation: the results
+// in nilRes are nil then, so the caller's branches on "result != nil" are not taken.
+func (cm *CoverModel) coveredWithNilResults(in ssa.Instruction, nilRes map[int]bool) bool {
+	call, ok := in.(*ssa.Call)
+	if !ok || len(nilRes) == 0 {
+		return cm.covered(in)
+	}
+	var vals []ssa.Value
+	if call.Call.Signature().Results().Len() == 1 && nilRes[0] {
+		vals = append(vals, call)
+	}
+	for _, rr := range referrers(call) {
+		if ex, ok := rr.(*ssa.Extract); ok && nilRes[ex.Index] {
+			vals = append(vals, ex)
+		}
+	}
+	old := cm.pruneEdge
+	cm.pruneEdge = func(a, b *ssa.BasicBlock) bool {
+		if old != nil && old(a, b) {
+			return true
+		}
+		for _, v := range vals {
+			if nn := nonNilSucc(a, v); nn != nil && nn == b {
+				return true // the "result is non-nil" edge is infeasible after the mutation
+			}
+		}
+		return false
+	}
+	defer func() { cm.pruneEdge = old }()
+	return cm.covered(in)
 }
 
 func (cm *CoverModel) coveredSite(s *MutSite) bool {
@@ -625,8 +760,9 @@ func (cm *CoverModel) Uncovered(sel func(*MutSite) bool) []lifted {
 				out = append(out, lifted{site: s, at: fn, chain: fr.chain})
 				continue
 			}
+			nilRes := nilResultsAfter(fr.in)
 			for _, c := range cs {
-				if cm.covered(c.in) {
+				if cm.coveredWithNilResults(c.in, nilRes) {
 					continue
 				}
 				ch := append(append([]string{}, fr.chain...), fmt.Sprintf("%s [%s]", fnName(c.caller), p.Pos(p.InstrPos(c.in))))
